@@ -1034,7 +1034,9 @@ for _pid in ["C01", "C02", "C03", "C04", "C05", "C06", "C07", "C08", "C09", "C10
     ok(_pid, "keyword arguments of every call in reverse order", _generic.reverse_kwargs)
     ok(_pid, "operands of every comparison swapped (a < b -> b > a, a == b -> b == a)",
        _generic.swap_comparisons)
-    ok(_pid, "renaming, branch flipping, comparison swapping and keyword reversal combined",
+    ok(_pid, "call arguments evaluated into temporaries first (x = f(a + b) -> h = a + b; x = f(h))",
+       _generic.hoist_arguments)
+    ok(_pid, "temporaries, renaming, branch flipping, comparison swapping and keyword reversal combined",
        _generic.all_rewrites)
 
 ok("C02", "selector locals renamed in Tempo._influence", _multi(
